@@ -14,7 +14,7 @@ import (
 // genC10Script draws a fixed-desired-state script: user steps separated by quiescence.
 func genC10Script(t *rapid.T) *Scenario {
 	sc := &Scenario{Prop: "C10"}
-	opts := SetGenOpts{AllowClass: true, PoolSize: 4, MaxObjs: 2, MaxPhases: 3, AllowSliced: true}
+	opts := SetGenOpts{AllowClass: true, PoolSize: 4, MaxObjs: 2, MaxPhases: 3, AllowSliced: true, CPs: []string{"", "", "Prevent", "IfNoController", "None"}}
 	add := func(s Step) { sc.Steps = append(sc.Steps, s, Step{Op: "quiesce"}) }
 	readyAll := func() {
 		for w := 0; w < 3; w++ {
@@ -29,6 +29,23 @@ func genC10Script(t *rapid.T) *Scenario {
 		readyAll()
 		if rapid.Bool().Draw(t, "second") {
 			s1 := GenSet(t, opts)
+			if rapid.Bool().Draw(t, "derived") {
+				// the successor lists the same objects (other content, collision protection drawn again): both revisions stay
+				// active and keep reconciling the shared objects
+				s1 = s0
+				s1.Phases = nil
+				for _, ph := range s0.Phases {
+					p2 := ph
+					p2.Sliced = false
+					p2.Objs = nil
+					for _, o := range ph.Objs {
+						o.Variant++
+						o.CP = rapid.SampledFrom(opts.CPs).Draw(t, "cp1")
+						p2.Objs = append(p2.Objs, o)
+					}
+					s1.Phases = append(s1.Phases, p2)
+				}
+			}
 			s1.Previous = []int{0}
 			add(Step{Op: "createSet", Set: &s1})
 			readyAll()
@@ -156,7 +173,15 @@ func TestC10Sequences(t *testing.T) {
 	}, func(rt *rapid.T) {
 		script := genC10Script(rt)
 		ref, err := runC10(script, C10Disturbance{})
-		if err != nil || !ref.quiescent {
+		if err != nil {
+			st.Report(rt, &c10Case{Part: "sequences", Script: script}, err)
+			return
+		}
+		if !ref.quiescent {
+			// the undisturbed run itself never settles (e.g. two revisions taking an object from each other for ever)
+			c := &c10Case{Part: "sequences", Script: script}
+			st.Case(c, false, "reference-not-quiescent")
+			st.Report(rt, c, Violf("C10", "no-convergence-undisturbed", "the undisturbed run of the script did not reach quiescence"))
 			return
 		}
 		c := &c10Case{Part: "sequences", Script: script}
